@@ -363,7 +363,9 @@ Inductive op :=
 | OGetCode (a : N) | OGetCodeHash (a : N) | OGetCodeSize (a : N)
 | OExist (a : N) | OSuicided (a : N) | OEmpty (a : N)
 | OGetRefund | OGetLogs (h : N) | OALHasAddr (a : N) | OALHasSlot (a k : N)
-| OGetTransient (a k : N) | OGetFT (a : N).
+| OGetTransient (a k : N) | OGetFT (a : N)
+(* transaction boundary: AccountDB.Prepare(thash, bhash, txIndex) — not journalled; never inside a bracket *)
+| OPrepare (h : N).
 
 Inductive ans :=
 | AU | AN (n : N) | AB (b : bool) | ABy (v : bytes) | AP (b1 b2 : bool) | AO (o : option N) | AL (l : list (N * N))
@@ -373,6 +375,12 @@ Definition u64 : N := 18446744073709551616.     (* nonce and refund counter are 
 
 Definition obj_field {A} (s : state) (a : N) (f : obj -> A) (d : A) : A :=
   match objs s !! a with Some o => f o | None => d end.
+
+(* AccountDB.Prepare: the tx hash for the logs, a fresh access list and fresh transient storage.  The journal,
+   the revision stack and nextRevisionID are NOT touched: revision ids keep counting over the whole life of
+   the AccountDB (until Finalise), so an id names one live revision whatever transaction took it. *)
+Definition prepare (h : N) (s : state) : state :=
+  s <| thash := h |> <| al_addrs := ∅ |> <| al_slots := [] |> <| transient := ∅ |>.
 
 Definition step (o : op) (s : state) : state * ans :=
   match o with
@@ -460,6 +468,7 @@ Definition step (o : op) (s : state) : state * ans :=
   | OALHasSlot a k => (s, let '(x, y) := al_has_slot s a k in AP x y)
   | OGetTransient a k => (s, AN (tget s a k))
   | OGetFT a => let '(s1, raw) := ft_read a (ensure true a s) in (s1, AN (default 0 raw))
+  | OPrepare h => (prepare h s, AU)
   end.
 
 (* ---------- programs: well-bracketed by construction ---------- *)
